@@ -334,6 +334,19 @@ fn get_node_tag<'i>(
     }
 }
 
+/// `unescape` with a located error instead of a panic for escapes that denote no `char`
+/// (e.g. `\u{110000}` or `\u{D800}`).
+fn unescape_literal(pair: &Pair<'_, Rule>, what: &str) -> Result<String, Vec<Error<Rule>>> {
+    unescape(pair.as_str()).ok_or_else(|| {
+        vec![Error::new_from_span(
+            ErrorVariant::CustomError {
+                message: format!("incorrect {what} literal: invalid escape sequence"),
+            },
+            pair.as_span(),
+        )]
+    })
+}
+
 /// An index of `PEEK[a..b]` as `i32`, with a located error instead of a panic on overflow.
 fn peek_index(pair: &Pair<'_, Rule>) -> Result<i32, Vec<Error<Rule>>> {
     pair.as_str().parse().map_err(|_| {
@@ -410,7 +423,7 @@ fn consume_expr<'i>(
                         pairs.next().unwrap(); // opening_paren
                         let contents_pair = pairs.next().unwrap();
                         let string =
-                            unescape(contents_pair.as_str()).expect("incorrect string literal");
+                            unescape_literal(&contents_pair, "string")?;
                         ParserNode {
                             expr: ParserExpr::PushLiteral(string[1..string.len() - 1].to_owned()),
                             span: contents_pair.clone().as_span(),
@@ -456,7 +469,7 @@ fn consume_expr<'i>(
                         span: pair.clone().as_span(),
                     },
                     Rule::string => {
-                        let string = unescape(pair.as_str()).expect("incorrect string literal");
+                        let string = unescape_literal(&pair, "string")?;
                         ParserNode {
                             expr: ParserExpr::Str(string[1..string.len() - 1].to_owned()),
                             span: pair.clone().as_span(),
@@ -466,7 +479,7 @@ fn consume_expr<'i>(
                         // `^` and the string may be separated by whitespace or comments, so the
                         // contents are taken from the string token, not from a fixed offset.
                         let literal = pair.clone().into_inner().next().unwrap();
-                        let string = unescape(literal.as_str()).expect("incorrect string literal");
+                        let string = unescape_literal(&literal, "string")?;
                         ParserNode {
                             expr: ParserExpr::Insens(string[1..string.len() - 1].to_owned()),
                             span: pair.clone().as_span(),
@@ -475,11 +488,11 @@ fn consume_expr<'i>(
                     Rule::range => {
                         let mut pairs = pair.into_inner();
                         let pair = pairs.next().unwrap();
-                        let start = unescape(pair.as_str()).expect("incorrect char literal");
+                        let start = unescape_literal(&pair, "char")?;
                         let start_pos = pair.clone().as_span().start_pos();
                         pairs.next();
                         let pair = pairs.next().unwrap();
-                        let end = unescape(pair.as_str()).expect("incorrect char literal");
+                        let end = unescape_literal(&pair, "char")?;
                         let end_pos = pair.clone().as_span().end_pos();
 
                         ParserNode {
